@@ -25,6 +25,8 @@ pub enum VotePolicy {
     Late(u64),
     /// answers with a node id that is not part of the cluster
     AsUnknown,
+    /// answers with the id of the candidate itself (a reflected / spoofed vote)
+    AsCandidate,
 }
 
 #[derive(Clone, Debug, Serialize, Deserialize, PartialEq)]
@@ -91,11 +93,12 @@ pub fn gen_plan(rng: &mut Rng, thorough: bool) -> OrchPlan {
     let min_timeout_ms = *rng.pick(&[100u64, 300, 500]);
     let scripts = (0..n_nodes)
         .map(|_| PeerScript {
-            votes: match rng.below(9) {
+            votes: match rng.below(10) {
                 0 => VotePolicy::Never,
                 1..=3 => VotePolicy::Always,
                 4..=5 => VotePolicy::Twice,
                 6..=7 => VotePolicy::Late(rng.range(50, 3 * min_timeout_ms)),
+                8 => VotePolicy::AsCandidate,
                 _ => VotePolicy::AsUnknown,
             },
             competes: if rng.chance(1, 3) {
@@ -227,6 +230,7 @@ async fn scripted_peer(i: usize, plan: OrchPlan, reply_of: ReplyOf) {
                 VotePolicy::Twice => (me.clone(), 2, 0),
                 VotePolicy::Late(ms) => (me.clone(), 1, *ms),
                 VotePolicy::AsUnknown => ("stranger".to_owned(), 1, 0),
+                VotePolicy::AsCandidate => (cand.clone(), 1, 0),
             };
             let s2 = sock.clone();
             let ro = reply_of.clone();
